@@ -249,8 +249,9 @@ def run_property(pid, args, contracts, seed):
         for c in sel:
             if "no-native" in c.tags:
                 continue
-            for k in range(4):
-                tasks.append((c.name, seed * 7 + k + 1, per))
+            nb = int((c.opts or {}).get("fuzz_batches", 4))
+            for k in range(nb):
+                tasks.append((c.name, seed * 7 + k + 1, max(1, per * 4 // nb)))
         with ctx.Pool(min(jobs, max(1, len(tasks)))) as pool:
             try:
                 bres = pool.map_async(_cli._bounded_batch, tasks, chunksize=1).get(timeout=1500)
